@@ -58,6 +58,9 @@ def decode_value(v):
             return cls(*args, **kw)
         if '__dict__' in v:
             return {k: decode_value(x) for k, x in v['__dict__'].items()}
+        if '__flags__' in v:
+            import bitcoin.core.scripteval as _se
+            return tuple(_se.SCRIPT_VERIFY_FLAGS_BY_NAME[n] for n in v['__flags__'])
         if '__none__' in v:
             return None
         raise ValueError('cannot decode %r' % (v,))
@@ -247,11 +250,46 @@ def _check(cdef, fn, kind, owner, inputs, chain):
 
 
 # ---- random inputs from shapes (bounded stand-in) ---------------------------------
+GENERATORS = {}    # contract name -> generator(rng) of a complete input dict
 BUILDERS = {}      # class -> generator(rng) of a decodable object description
 
 INTERESTING_INTS = [0, 1, 2, 3, 15, 16, 17, 0x4b, 0x4c, 0x4d, 0x7f, 0x80, 0xfc, 0xfd, 0xfe, 0xff, 0x100,
                     0xffff, 0x10000, 0x7fffff, 0x800000, 0xffffff, 0x1000000, 2**31 - 1, 2**31, 2**32 - 1,
                     2**32, 2**63 - 1, 2**63, 2**64 - 1, 2**255, 2**256 - 1]
+
+
+def rand_script(rng):
+    """structure-aware script bytes: opcode soup, well-formed pushes, truncated pushes,
+    long runs at the interpreter's limits"""
+    r = rng.random()
+    if r < 0.08:
+        n = rng.choice([200, 201, 202, 999, 1000, 1001])
+        unit = rng.choice([b'\x01\x01', b'\x51', b'\x00', b'\x61', b'\x76', b'\x51\x6b'])
+        return unit * n
+    if r < 0.2:
+        return bytes(rng.getrandbits(8) for _ in range(rng.randint(0, 40)))
+    out = b''
+    for _ in range(rng.randint(0, 12)):
+        c = rng.random()
+        if c < 0.35:
+            d = bytes(rng.getrandbits(8) if rng.random() < 0.7 else rng.choice([0, 1, 0x80, 0x81]) for _ in range(rng.choice([0, 1, 1, 2, 3, 4, 5, 20, 33, 75])))
+            out += bytes([len(d)]) + d
+        elif c < 0.42:
+            d = bytes(rng.getrandbits(8) for _ in range(rng.choice([0, 1, 76, 255])))
+            out += b'\x4c' + bytes([len(d)]) + d
+        elif c < 0.46:
+            d = bytes(rng.getrandbits(8) for _ in range(rng.choice([0, 255, 256, 520, 521])))
+            out += b'\x4d' + len(d).to_bytes(2, 'little') + d
+        elif c < 0.5:
+            out += rng.choice([b'\x4c', b'\x4d\x01', b'\x4e\x01\x00', b'\x05\x01', b'\x4c\x05\x01'])
+        else:
+            out += bytes([rng.choice([0x00, 0x4f, 0x51, 0x52, 0x53, 0x60, 0x61, 0x63, 0x64, 0x67, 0x68, 0x69, 0x6a,
+                                      0x6b, 0x6c, 0x6d, 0x6e, 0x6f, 0x70, 0x71, 0x72, 0x73, 0x74, 0x75, 0x76, 0x77,
+                                      0x78, 0x79, 0x7a, 0x7b, 0x7c, 0x7d, 0x82, 0x87, 0x88, 0x8b, 0x8c, 0x8f, 0x90,
+                                      0x91, 0x92, 0x93, 0x94, 0x9a, 0x9b, 0x9c, 0x9d, 0x9e, 0x9f, 0xa0, 0xa1, 0xa2,
+                                      0xa3, 0xa4, 0xa5, 0xa6, 0xa7, 0xa8, 0xa9, 0xaa, 0xab, 0xac, 0xad, 0xae, 0xaf,
+                                      0xb0, 0xb1, 0xb9, 0x7e, 0x65, 0xff, rng.getrandbits(8)])])
+    return out
 
 
 def rand_value(rng, sh, depth=0):
@@ -277,6 +315,10 @@ def rand_value(rng, sh, depth=0):
         return v
     if k == 'bool':
         return rng.random() < 0.5
+    if k == 'bytes' and kw.get('cls') is not None and kw['cls'].__name__ == 'CScript' and kw.get('len') is None:
+        b = rand_script(rng)
+        cls = kw['cls']
+        return {'__bytes__': list(b), 'cls': cls.__module__ + ':' + cls.__qualname__}
     if k == 'bytes':
         n = kw.get('len')
         if n is None:
@@ -310,12 +352,18 @@ def rand_value(rng, sh, depth=0):
         return {'__stream__': [rng.getrandbits(8) for _ in range(n)], 'pos': rng.randint(0, n)}
     if k == 'none':
         return None
+    if k == 'any':
+        return None
+    if k == 'raiser':
+        raise ValueError('no generator for raiser')
     if k == 'obj':
         cls = kw['cls']
         if not isinstance(cls, type):
             cls = rng.choice(cls.kw['values'])
         if cls in BUILDERS:
             return BUILDERS[cls](rng)
+    if k == 'flagset':
+        return {'__flags__': [n for n in sorted(kw['flags']) if rng.random() < 0.5]}
     if k == 'dict':
         return {'__dict__': {fn: rand_value(rng, fs, depth + 1) for fn, fs in kw['fields'].items()}}
     raise ValueError('no generator for shape %r' % (sh,))
@@ -323,7 +371,7 @@ def rand_value(rng, sh, depth=0):
 
 def random_inputs(cdef, rng, generators=None):
     node, params, ghosts, clauses, ret = parse_clauses(cdef.fn)
-    gen = (generators or {}).get(cdef.name)
+    gen = (generators or GENERATORS).get(cdef.name)
     if gen is not None:
         return gen(rng)
     return {nm: rand_value(rng, sh) for nm, sh in params}
